@@ -4,6 +4,7 @@ import Ufw.Tie.SlipFns.Common
 import Ufw.Tie.SlipFns.ContextInit
 import Ufw.Tie.SlipFns.Encode
 import Ufw.Tie.SlipFns.Decode
+import Ufw.Tie.SlipFns.EndToEnd
 #print axioms Ufw.Props.C12.enc_eq_rfc
 #print axioms Ufw.Props.C12.encode_emits_enc
 #print axioms Ufw.Props.C12.no_inner_delimiter
@@ -56,3 +57,7 @@ import Ufw.Tie.SlipFns.Decode
 #print axioms Ufw.Tie.SlipFns.sof_code
 #print axioms Ufw.Tie.SlipFns.decode_loop
 #print axioms Ufw.Tie.SlipFns.gen_rfc1055_decode
+#print axioms Ufw.Tie.SlipFns.payloadSrc_ok
+#print axioms Ufw.Tie.SlipFns.srcM_payload
+#print axioms Ufw.Tie.SlipFns.c_encode_emits
+#print axioms Ufw.Tie.SlipFns.c_decode_encode
